@@ -3,6 +3,8 @@ package main
 import (
 	"bytes"
 	"fmt"
+	"reflect"
+	"strings"
 	"unsafe"
 )
 
@@ -32,6 +34,18 @@ var roomy bool
 type handed struct{ buf, arg []byte }
 
 var callInputs []handed
+
+// readsOnly: entry points that only READ the bytes they are given (decoders, parsers, verifiers, and the builders
+// that take a parsed message): they have no business writing behind the end of their input.  Encoders with append
+// semantics (pkcs7.Pad, Data.Add, hash.Hash.Sum, the NTLMv1 key padding) are not in this class.
+func readsOnly(fn string) bool {
+	for _, k := range []string{"unmarshal", "decode", "parse", "from_", "extract", "process_challenge", "create_authenticate", "verify", "unpad", "recv"} {
+		if strings.Contains(fn, k) {
+			return true
+		}
+	}
+	return false
+}
 
 // entry points whose objects legitimately keep the caller's buffers across calls of the harness
 var noArena = map[string]bool{
@@ -117,6 +131,14 @@ func afterCall(prop, fn string) (string, string) {
 		if !bytes.Equal(h.buf, h.arg) {
 			return prop + "/writes-into-input/" + fn, fmt.Sprintf("%s changed the buffer it was given: %x became %x", fn, trunc16(h.arg), trunc16(h.buf))
 		}
+		// roomy mode: the spare capacity behind the buffer (what follows it in the caller's memory) is untouched
+		if roomy && readsOnly(fn) && cap(h.buf) > len(h.buf) {
+			for _, x := range h.buf[len(h.buf):cap(h.buf)] {
+				if x != 0xA5 {
+					return prop + "/writes-into-input/" + fn, fmt.Sprintf("%s wrote behind the end of the %d-byte buffer it was given (into the caller's memory that follows it): %x", fn, len(h.buf), h.buf[len(h.buf):cap(h.buf)])
+				}
+			}
+		}
 	}
 	for i := range outRing {
 		t := &outRing[i]
@@ -181,4 +203,47 @@ func trunc(s string, n int) string {
 		return s[:n] + "..."
 	}
 	return s
+}
+
+// dirty fills every settable field of the value p points to with non-zero garbage.  Decoder wrappers call it on
+// the receiver before decoding: a decoder overwrites everything it reports, so decoding into a receiver that
+// already holds something must give what decoding into a fresh one gives (the models are written from a fresh
+// receiver; this is what makes that assumption checked instead of assumed).
+func dirty(p interface{}) {
+	v := reflect.ValueOf(p)
+	if v.Kind() != reflect.Ptr || v.IsNil() {
+		return
+	}
+	dirtyValue(v.Elem(), 0)
+}
+
+func dirtyValue(v reflect.Value, depth int) {
+	if !v.CanSet() || depth > 4 {
+		return
+	}
+	switch v.Kind() {
+	case reflect.Uint8, reflect.Uint16, reflect.Uint32, reflect.Uint64, reflect.Uint:
+		v.SetUint(0xA5A5A5A5A5A5A5A5 >> (64 - uint(v.Type().Bits())))
+	case reflect.Int8, reflect.Int16, reflect.Int32, reflect.Int64, reflect.Int:
+		v.SetInt(-0x5b)
+	case reflect.Bool:
+		v.SetBool(true)
+	case reflect.String:
+		v.SetString("DIRTY.dirty")
+	case reflect.Slice:
+		n := 3
+		s := reflect.MakeSlice(v.Type(), n, n)
+		for i := 0; i < n; i++ {
+			dirtyValue(s.Index(i), depth+1)
+		}
+		v.Set(s)
+	case reflect.Array:
+		for i := 0; i < v.Len(); i++ {
+			dirtyValue(v.Index(i), depth+1)
+		}
+	case reflect.Struct:
+		for i := 0; i < v.NumField(); i++ {
+			dirtyValue(v.Field(i), depth+1)
+		}
+	}
 }
